@@ -56,6 +56,15 @@ type per struct {
 	Infl  string `json:"infl"` // mantissa
 }
 
+// rew is one partner reward (V = ukava per second) or core reward (V = weight
+// mantissa).  To names the recipient: "u0".."u3" ordinary accounts, "kd" the
+// x/kavadist module account itself, "cp" the x/community module account,
+// "blk" the fee collector (an address x/bank refuses to pay to).
+type rew struct {
+	To string `json:"to"`
+	V  string `json:"v"`
+}
+
 type cfg struct {
 	Rate     string `json:"rate"`     // StakingRewardsPerSecond mantissa
 	UpgRate  string `json:"upg_rate"` // UpgradeTimeSetStakingRewardsPerSecond mantissa
@@ -64,6 +73,8 @@ type cfg struct {
 	KdActive bool   `json:"kd_active"`
 	Periods  []per  `json:"periods"`
 	Infra    []per  `json:"infra"`
+	Partners []rew  `json:"partners,omitempty"`
+	Cores    []rew  `json:"cores,omitempty"`
 }
 
 type op struct {
@@ -125,18 +136,46 @@ type world struct {
 	ctx    sdk.Context
 	height int64
 	user   sdk.AccAddress
-	fired  bool // the switch has been observed to fire in this history
+	rcpt   []sdk.AccAddress // the ordinary accounts that partner / core rewards can name
+	fired  bool             // the switch has been observed to fire in this history
 	reen   bool // kavadist was re-activated by a governance op after the switch
 }
 
-const nProj = 14
+const (
+	nUsers = 4
+	nProj  = 14 + nUsers
+)
 
 type snap [nProj]*big.Int
+
+func (w *world) recipient(to string) sdk.AccAddress {
+	ak := w.tApp.GetAccountKeeper()
+	switch to {
+	case "kd":
+		return ak.GetModuleAddress(kavadisttypes.ModuleName)
+	case "cp":
+		return ak.GetModuleAddress(communitytypes.ModuleAccountName)
+	case "blk":
+		return ak.GetModuleAddress(authtypes.FeeCollectorName)
+	}
+	return w.rcpt[int(to[1]-'0')]
+}
 
 func setup(c cfg) *world {
 	tApp := NewApp()
 	cdc := tApp.AppCodec()
-	user := Addrs(1)[0]
+	addrs := Addrs(1 + nUsers)
+	user := addrs[0]
+	w := &world{tApp: tApp, height: 2, user: user, rcpt: addrs[1:]}
+	var partners kavadisttypes.PartnerRewards
+	for _, p := range c.Partners {
+		// built as a literal: governance can store any amount (validateInfraParams does not look at the reward lists)
+		partners = append(partners, kavadisttypes.PartnerReward{Address: w.recipient(p.To), RewardsPerSecond: sdk.Coin{Denom: "ukava", Amount: sdkmath.NewIntFromBigInt(bi(p.V))}})
+	}
+	var cores kavadisttypes.CoreRewards
+	for _, p := range c.Cores {
+		cores = append(cores, kavadisttypes.CoreReward{Address: w.recipient(p.To), Weight: decM(bi(p.V))})
+	}
 	funds := new(big.Int).Add(bi(c.Pool), Pow10(15))
 	ab := app.NewAuthBankGenesisBuilder().WithSimpleAccount(user, sdk.NewCoins(sdk.NewCoin("ukava", sdkmath.NewIntFromBigInt(funds))))
 	mg := minttypes.DefaultGenesisState()
@@ -150,7 +189,7 @@ func setup(c cfg) *world {
 		prev = kavadisttypes.DefaultPreviousBlockTime
 	}
 	kg := kavadisttypes.NewGenesisState(kavadisttypes.NewParams(false, periods(c.Periods),
-		kavadisttypes.NewInfraParams(periods(c.Infra), nil, nil)), prev)
+		kavadisttypes.NewInfraParams(periods(c.Infra), partners, cores)), prev)
 	cg := communitytypes.NewGenesisState(
 		communitytypes.NewParams(tm(c.Upg), decM(bi(c.Rate)), decM(bi(c.UpgRate))),
 		communitytypes.DefaultStakingRewardsState())
@@ -160,7 +199,6 @@ func setup(c cfg) *world {
 		app.GenesisState{kavadisttypes.ModuleName: cdc.MustMarshalJSON(kg)},
 		app.GenesisState{communitytypes.ModuleName: cdc.MustMarshalJSON(&cg)},
 	)
-	w := &world{tApp: tApp, height: 2, user: user}
 	w.ctx = NewCtx(tApp, w.height, GenesisTime)
 	if c.KdActive {
 		kp := tApp.GetKavadistKeeper().GetParams(w.ctx)
@@ -206,6 +244,9 @@ func (w *world) snap() snap {
 	if pt, found := w.tApp.GetKavadistKeeper().GetPreviousBlockTime(ctx); found {
 		s[13] = big.NewInt(tns(pt))
 	}
+	for i, a := range w.rcpt {
+		s[14+i] = w.tApp.GetBankKeeper().GetBalance(ctx, a, "ukava").Amount.BigInt()
+	}
 	return s
 }
 
@@ -225,6 +266,7 @@ const (
 	iTax
 	iKdAct
 	iKdPrev
+	iUser0
 )
 
 type stepRes struct {
@@ -233,6 +275,7 @@ type stepRes struct {
 	outs  []*big.Int // operation outputs compared with the model
 	mintO *big.Int   // oracle values (Block)
 	consO *big.Int
+	coins *big.Int // kdinfra: the coin amount returned by mintInfrastructurePeriods
 }
 
 func (w *world) exec(o op) stepRes {
@@ -255,9 +298,10 @@ func (w *world) exec(o op) stepRes {
 			w.height++
 			w.ctx = ctx
 			after := w.snap()
-			dSup := new(big.Int).Sub(after[iSupply], before[iSupply])
-			dKd := new(big.Int).Sub(after[iKdBal], before[iKdBal])
-			res.mintO = dSup.Sub(dSup, dKd) // what x/mint minted
+			// what x/mint minted in this block: the provision of the minter it stored, under the
+			// parameters it ran with (the community switch runs before it in the same block)
+			mk := w.tApp.GetMintKeeper()
+			res.mintO = mk.GetMinter(ctx).BlockProvision(mk.GetParams(ctx)).Amount.BigInt()
 			fired := before[iUpg].Sign() != 0 && after[iUpg].Sign() == 0
 			res.outs = []*big.Int{big.NewInt(0)}
 			if fired {
@@ -306,6 +350,7 @@ func (w *world) exec(o op) stepRes {
 		before := w.tApp.GetBankKeeper().GetSupply(w.ctx, "ukava").Amount.BigInt()
 		kk := w.tApp.GetKavadistKeeper()
 		var e error
+		var infraCoins, infraTe *big.Int
 		defer func() {
 			if e != nil {
 				res.msg = e.Error()
@@ -316,12 +361,19 @@ func (w *world) exec(o op) stepRes {
 			if o.Kind == "kdmint" {
 				return kk.VerifMintIncentivePeriods(c, periods(o.Ps), tm(o.Prev))
 			}
-			_, _, err := kk.VerifMintInfrastructurePeriods(c, periods(o.Ps), tm(o.Prev))
+			coins, el, err := kk.VerifMintInfrastructurePeriods(c, periods(o.Ps), tm(o.Prev))
+			if err == nil {
+				infraCoins, infraTe = coins.Amount.BigInt(), el.BigInt()
+			}
 			return err
 		})
 		if res.cls == ClassOk {
 			after := w.tApp.GetBankKeeper().GetSupply(w.ctx, "ukava").Amount.BigInt()
 			res.outs = []*big.Int{new(big.Int).Sub(after, before)}
+			if o.Kind == "kdinfra" {
+				res.outs = append(res.outs, infraTe)
+				res.coins = infraCoins
+			}
 		}
 	default:
 		panic("unknown op kind " + o.Kind)
@@ -412,6 +464,189 @@ func kdSplits(ps []per, prev, now int64, mark func(string)) (unstarted bool) {
 	return
 }
 
+
+// insideSecs is the number of whole seconds of the block interval (prev, now]
+// that lie inside the periods of the list (written from the property).
+func insideSecs(ps []per, prev, now int64) int64 {
+	var n int64
+	for _, p := range ps {
+		lo, hi := p.Start, p.End
+		if prev > lo {
+			lo = prev
+		}
+		if now < hi {
+			hi = now
+		}
+		if lo < hi {
+			n += unixOf(hi) - unixOf(lo)
+		}
+	}
+	return n
+}
+
+// mintedSecs is the number of whole seconds the period list is minted for in one
+// call: a period that ended since the previous block from max(prev, Start) to its
+// End (the next period then counts from that End), an ongoing period that had
+// started by prev from prev to now; nothing else (the rule of the two minting loops).
+func mintedSecs(ps []per, prev, now int64) int64 {
+	var n int64
+	for _, p := range ps {
+		switch {
+		case p.End < prev:
+		case p.End > prev && p.End <= now:
+			from := prev
+			if p.Start > from {
+				from = p.Start
+			}
+			n += unixOf(p.End) - unixOf(from)
+			prev = p.End
+		case p.Start <= prev && p.End > now:
+			n += unixOf(now) - unixOf(prev)
+		}
+	}
+	return n
+}
+
+// judgeElapsed states the rule for the time the partner rewards are multiplied by:
+// exactly the seconds minted for, hence never more than the seconds of the block
+// interval that lie inside the periods.
+func judgeElapsed(te *big.Int, ps []per, prev, now int64, where string, mark func(string)) *failure {
+	in, mt := insideSecs(ps, prev, now), mintedSecs(ps, prev, now)
+	if te.Cmp(big.NewInt(in)) > 0 {
+		return &failure{"partner-rewards-only-for-time-inside-periods", "partner-paid-for-time-outside-periods", fmt.Sprintf("%s: elapsed %s s, only %d s of (prev=%d, now=%d] lie inside the periods %s", where, te, in, prev, now, MustJSON(ps))}
+	}
+	if te.Cmp(big.NewInt(mt)) != 0 {
+		return &failure{"partner-rewards-for-the-time-minted-for", "partner-elapsed-differs-from-time-minted-for", fmt.Sprintf("%s: elapsed %s s, minted for %d s (prev=%d now=%d periods %s)", where, te, mt, prev, now, MustJSON(ps))}
+	}
+	if mt < in {
+		mark("infra:period-started-inside-block-interval-not-minted")
+	}
+	mark("infra:elapsed-equals-time-minted-for")
+	return nil
+}
+
+// expectedDistribution is the rule for distributing [coins] minted for the
+// infrastructure periods over [te] seconds: each partner its rate x te, in list
+// order, then each core recipient its weight of what is left at that point
+// (LegacyDec Mul then RoundInt), the rest stays with kavadist.  ok = false when
+// the rule cannot be carried out (negative amount, more than what is left, a
+// blocked address): the code fails the block then.
+func expectedDistribution(c cfg, te int64, coins *big.Int) (users [nUsers]*big.Int, toPool, toKd *big.Int, ok bool) {
+	for i := range users {
+		users[i] = new(big.Int)
+	}
+	toPool, toKd = new(big.Int), new(big.Int)
+	if te == 0 || coins.Sign() == 0 {
+		return users, toPool, toKd, true
+	}
+	left := new(big.Int).Set(coins)
+	pay := func(to string, a *big.Int) bool {
+		if a.Sign() < 0 || a.Cmp(left) > 0 || to == "blk" {
+			return false
+		}
+		switch to {
+		case "kd":
+			toKd.Add(toKd, a)
+		case "cp":
+			toPool.Add(toPool, a)
+		default:
+			i := int(to[1] - '0')
+			users[i].Add(users[i], a)
+		}
+		left.Sub(left, a)
+		return true
+	}
+	for _, p := range c.Partners {
+		if !pay(p.To, new(big.Int).Mul(bi(p.V), big.NewInt(te))) {
+			return users, toPool, toKd, false
+		}
+	}
+	for _, p := range c.Cores {
+		a := sdkmath.LegacyNewDecFromBigInt(left).Mul(decM(bi(p.V))).RoundInt().BigInt()
+		if !pay(p.To, a) {
+			return users, toPool, toKd, false
+		}
+	}
+	return users, toPool, toKd, true
+}
+
+func (c cfg) names(to string) int {
+	n := 0
+	for _, p := range c.Partners {
+		if p.To == to {
+			n++
+		}
+	}
+	for _, p := range c.Cores {
+		if p.To == to {
+			n++
+		}
+	}
+	return n
+}
+
+func (c cfg) hasRewards() bool { return len(c.Partners)+len(c.Cores) > 0 }
+
+// distPanicExpected says whether a panic of the begin blocker at block time t is
+// explained by the distribution of the infrastructure coins as the code defines
+// it: "no" (it must not panic on account of the distribution), "yes:<why>", or
+// "unknown" (too close to call without re-doing the code's arithmetic).  The
+// coins minted are asked of the code itself, on a branch of
+// the pre-block state (x/mint has not run there, so the coins are lower by a
+// relative 1e-8; hence the 1% margin).
+func (w *world) distPanicExpected(c cfg, t int64, before snap, due bool, kdPs, kdInfra []per) (verdict string) {
+	if before[iKdAct].Sign() == 0 || due || before[iKdPrev].Sign() == 0 || !c.hasRewards() {
+		return "no"
+	}
+	defer func() {
+		if recover() != nil {
+			verdict = "unknown"
+		}
+	}()
+	cc, _ := w.ctx.CacheContext()
+	cc = cc.WithBlockTime(tm(t))
+	kk := w.tApp.GetKavadistKeeper()
+	prev := tm(before[iKdPrev].Int64())
+	if err := kk.VerifMintIncentivePeriods(cc, periods(kdPs), prev); err != nil {
+		return "unknown"
+	}
+	coin, _, err := kk.VerifMintInfrastructurePeriods(cc, periods(kdInfra), prev)
+	if err != nil {
+		return "unknown"
+	}
+	// the elapsed time by the rule (seconds minted for), not as the code reports it
+	coins, te := coin.Amount.BigInt(), big.NewInt(mintedSecs(kdInfra, before[iKdPrev].Int64(), t))
+	if coins.Sign() == 0 || te.Sign() == 0 {
+		return "no"
+	}
+	need := new(big.Int)
+	for _, p := range c.Partners {
+		if p.To == "blk" {
+			return "yes:blocked-recipient"
+		}
+		a := new(big.Int).Mul(bi(p.V), te)
+		if a.Sign() < 0 {
+			return "yes:negative-rate"
+		}
+		need.Add(need, a)
+	}
+	if need.Cmp(coins) > 0 {
+		return "yes:shortfall"
+	}
+	if new(big.Int).Mul(need, big.NewInt(100)).Cmp(new(big.Int).Mul(coins, big.NewInt(99))) > 0 {
+		return "unknown"
+	}
+	for _, p := range c.Cores {
+		if p.To == "blk" {
+			return "yes:blocked-recipient"
+		}
+		if wt := bi(p.V); wt.Sign() < 0 || wt.Cmp(prec) > 0 {
+			return "unknown"
+		}
+	}
+	return "no"
+}
+
 type payObs struct {
 	paid, rg, e0, e1 *big.Int
 	capped           bool
@@ -432,7 +667,18 @@ func monitorBlock(w *world, ms *monState, c cfg, o op, r stepRes, before, after 
 		}
 		mark("block:panicked")
 		if nonDeflationary(kdPs) && nonDeflationary(kdInfra) {
-			return []*failure{{"begin-block-does-not-panic-on-valid-schedule", "begin-block-panicked-on-valid-schedule", fmt.Sprintf("t=%d prev=%s periods %s infra %s: %s", o.T, before[iKdPrev], MustJSON(kdPs), MustJSON(kdInfra), r.msg)}}
+			due := before[iUpg].Sign() != 0 && o.T >= before[iUpg].Int64()
+			switch v := w.distPanicExpected(c, o.T, before, due, kdPs, kdInfra); v {
+			case "no":
+				return []*failure{{"begin-block-does-not-panic-on-valid-schedule", "begin-block-panicked-on-valid-schedule", fmt.Sprintf("t=%d prev=%s periods %s infra %s partners %s cores %s: %s", o.T, before[iKdPrev], MustJSON(kdPs), MustJSON(kdInfra), MustJSON(c.Partners), MustJSON(c.Cores), r.msg)}}
+			case "unknown":
+				mark("infra:panic-unclassified")
+			default:
+				mark("infra:panic-" + v[4:])
+				if os.Getenv("C19_DEBUG") != "" {
+					fmt.Fprintf(os.Stderr, "C19_DEBUG block t=%d prev=%s panicked (%s): %s\n", o.T, before[iKdPrev], v, r.msg)
+				}
+			}
 		}
 		return nil
 	}
@@ -441,12 +687,33 @@ func monitorBlock(w *world, ms *monState, c cfg, o op, r stepRes, before, after 
 	due := armed && t >= before[iUpg].Int64()
 	fired := armed && after[iUpg].Sign() == 0
 	dSup := new(big.Int).Sub(after[iSupply], before[iSupply])
+	dKd := new(big.Int).Sub(after[iKdBal], before[iKdBal])
+	dPool := new(big.Int).Sub(after[iPool], before[iPool])
+	dSink := new(big.Int).Sub(after[iSink], before[iSink])
+	dUsers := new(big.Int)
+	for i := 0; i < nUsers; i++ {
+		dUsers.Add(dUsers, new(big.Int).Sub(after[iUser0+i], before[iUser0+i]))
+	}
+	kdMinted := new(big.Int).Sub(dSup, r.mintO) // what kavadist minted: everything x/mint did not
+	toPool := new(big.Int)                       // infrastructure rewards addressed to the community pool
 	wasFired := w.fired
 	if due {
 		w.fired = true
 	}
 	var fails []*failure
 	for _, part := range []func() *failure{
+		// ---- every coin created in the block is in one of the observed accounts
+		func() *failure {
+			sum := new(big.Int).Add(dPool, dSink)
+			sum.Add(sum, dKd).Add(sum, dUsers)
+			if sum.Cmp(dSup) != 0 {
+				return &failure{"every-minted-coin-goes-somewhere", "coins-unaccounted", fmt.Sprintf("supply %s vs pool %s + fee collector/distribution %s + kavadist %s + recipients %s", dSup, dPool, dSink, dKd, dUsers)}
+			}
+			if kdMinted.Sign() < 0 {
+				return &failure{"kavadist-mints-non-negative", "negative-kavadist-mint", kdMinted.String()}
+			}
+			return nil
+		},
 		// ---- the one-shot switch
 		func() *failure {
 			switch {
@@ -500,6 +767,19 @@ func monitorBlock(w *world, ms *monState, c cfg, o op, r stepRes, before, after 
 			}
 			poolAvail := new(big.Int).Add(before[iPool], cons)
 			paid := new(big.Int).Sub(poolAvail, after[iPool])
+			if c.hasRewards() && c.names("cp") > 0 {
+				// the pool also receives infrastructure rewards: read the payout off the
+				// fee collector side (payout + x/mint - consolidation) instead
+				paid = new(big.Int).Add(dSink, cons)
+				paid.Sub(paid, r.mintO)
+				toPool.Sub(after[iPool], new(big.Int).Sub(poolAvail, paid))
+				if toPool.Sign() < 0 {
+					return &failure{"community-pool-moves-by-payout-and-rewards", "community-pool-lost-coins", toPool.String()}
+				}
+				if toPool.Sign() > 0 {
+					mark("infra:to-community-pool")
+				}
+			}
 			if before[iLast].Sign() == 0 {
 				mark("pay:uninitialised")
 				if paid.Sign() != 0 {
@@ -511,7 +791,7 @@ func monitorBlock(w *world, ms *monState, c cfg, o op, r stepRes, before, after 
 				}
 				gap := t - before[iLast].Int64()
 				rg := new(big.Int).Mul(after[iRate], big.NewInt(gap)) // rate in force in this block * elapsed ns  (units 10^-27)
-				capped := after[iPool].Sign() == 0
+				capped := after[iPool].Cmp(toPool) == 0
 				ms.pays = append(ms.pays, payObs{paid, rg, before[iErr], after[iErr], capped})
 				if capped {
 					mark("pay:capped-by-pool")
@@ -567,19 +847,18 @@ func monitorBlock(w *world, ms *monState, c cfg, o op, r stepRes, before, after 
 			}
 			return nil
 		},
-		// ---- kavadist
+		// ---- kavadist minting
 		func() *failure {
-			dKd := new(big.Int).Sub(after[iKdBal], before[iKdBal])
 			switch {
 			case before[iKdAct].Sign() == 0 || fired:
 				mark("kd:inactive")
-				if dKd.Sign() != 0 || before[iKdPrev].Cmp(after[iKdPrev]) != 0 {
-					return &failure{"inactive-kavadist-mints-nothing", "inactive-kavadist-minted", dKd.String()}
+				if kdMinted.Sign() != 0 || dKd.Sign() != 0 || before[iKdPrev].Cmp(after[iKdPrev]) != 0 {
+					return &failure{"inactive-kavadist-mints-nothing", "inactive-kavadist-minted", kdMinted.String()}
 				}
 			case before[iKdPrev].Sign() == 0:
 				mark("kd:prev-not-found")
-				if dKd.Sign() != 0 || after[iKdPrev].Int64() != t {
-					return &failure{"first-active-block-only-initialises", "kavadist-minted-without-prev", dKd.String()}
+				if kdMinted.Sign() != 0 || dKd.Sign() != 0 || after[iKdPrev].Int64() != t {
+					return &failure{"first-active-block-only-initialises", "kavadist-minted-without-prev", kdMinted.String()}
 				}
 			default:
 				prev := before[iKdPrev].Int64()
@@ -588,19 +867,108 @@ func monitorBlock(w *world, ms *monState, c cfg, o op, r stepRes, before, after 
 				if after[iKdPrev].Int64() != t {
 					return &failure{"kavadist-interval-advances", "kavadist-prev-not-advanced", fmt.Sprint(after[iKdPrev], " != ", t)}
 				}
-				s0 := new(big.Int).Sub(after[iSupply], dKd) // supply when kavadist starts minting
+				s0 := new(big.Int).Sub(after[iSupply], kdMinted) // supply when kavadist starts minting
 				a1, ok1 := kdAllowed(kdPs, prev, t, s0)
 				if ok1 {
 					a2, ok2 := kdAllowed(kdInfra, prev, t, new(big.Int).Add(s0, a1))
 					if ok2 {
 						allowed := new(big.Int).Add(a1, a2)
-						if dKd.Cmp(allowed) > 0 {
+						if kdMinted.Cmp(allowed) > 0 {
 							sig := "kavadist-overmint"
 							if un1 || un2 {
 								sig = "kavadist-mints-for-time-before-period-start"
 							}
-							return &failure{"minted-for-time-within-period-and-block-interval", sig, fmt.Sprintf("prev=%d now=%d minted %s > allowed %s (periods %s infra %s, supply %s)", prev, t, dKd, allowed, MustJSON(kdPs), MustJSON(kdInfra), s0)}
+							return &failure{"minted-for-time-within-period-and-block-interval", sig, fmt.Sprintf("prev=%d now=%d minted %s > allowed %s (periods %s infra %s, supply %s)", prev, t, kdMinted, allowed, MustJSON(kdPs), MustJSON(kdInfra), s0)}
 						}
+					}
+				}
+			}
+			return nil
+		},
+		// ---- distribution of the infrastructure coins
+		func() *failure {
+			outOfKd := new(big.Int).Sub(kdMinted, dKd) // left the kavadist account in this block
+			for i := 0; i < nUsers; i++ {
+				if after[iUser0+i].Cmp(before[iUser0+i]) < 0 {
+					return &failure{"reward-recipients-only-receive", "reward-recipient-lost-coins", fmt.Sprint("user ", i)}
+				}
+			}
+			active := before[iKdAct].Sign() != 0 && !fired && before[iKdPrev].Sign() != 0
+			if !active || !c.hasRewards() {
+				if outOfKd.Sign() != 0 || dUsers.Sign() != 0 {
+					return &failure{"nothing-distributed-without-rewards-or-minting", "distributed-without-cause", fmt.Sprintf("left kavadist %s, recipients %s", outOfKd, dUsers)}
+				}
+				return nil
+			}
+			if outOfKd.Sign() < 0 {
+				return &failure{"kavadist-keeps-at-most-what-it-minted", "kavadist-gained-more-than-minted", outOfKd.String()}
+			}
+			if dKd.Sign() < 0 {
+				return &failure{"paid-out-within-minted", "kavadist-paid-more-than-it-minted", fmt.Sprintf("minted %s, balance moved by %s", kdMinted, dKd)}
+			}
+			prev := before[iKdPrev].Int64()
+			s0 := new(big.Int).Sub(after[iSupply], kdMinted)
+			if a1, ok1 := kdAllowed(kdPs, prev, t, s0); ok1 {
+				if a2, ok2 := kdAllowed(kdInfra, prev, t, new(big.Int).Add(s0, a1)); ok2 && outOfKd.Cmp(a2) > 0 {
+					return &failure{"infrastructure-rewards-within-infrastructure-mint", "infra-paid-more-than-minted", fmt.Sprintf("paid out %s > at most %s minted for the infrastructure periods (prev=%d now=%d infra %s)", outOfKd, a2, prev, t, MustJSON(kdInfra))}
+				}
+			}
+			// the whole distribution against the rule, whenever kavadist minted exactly what the
+			// schedule says (then the coins minted for the infrastructure periods are known)
+			if a1, ok1 := kdAllowed(kdPs, prev, t, s0); ok1 {
+				if a2, ok2 := kdAllowed(kdInfra, prev, t, new(big.Int).Add(s0, a1)); ok2 && kdMinted.Cmp(new(big.Int).Add(a1, a2)) == 0 {
+					if eu, ep, _, ok := expectedDistribution(c, mintedSecs(kdInfra, prev, t), a2); ok {
+						for i := 0; i < nUsers; i++ {
+							if d := new(big.Int).Sub(after[iUser0+i], before[iUser0+i]); d.Cmp(eu[i]) != 0 {
+								return &failure{"distribution-follows-rates-and-weights", "distribution-differs-from-rule", fmt.Sprintf("recipient u%d got %s, rule says %s (minted %s over %d s, partners %s cores %s)", i, d, eu[i], a2, mintedSecs(kdInfra, prev, t), MustJSON(c.Partners), MustJSON(c.Cores))}
+							}
+						}
+						if c.names("cp") > 0 && toPool.Cmp(ep) != 0 {
+							return &failure{"distribution-follows-rates-and-weights", "distribution-differs-from-rule", fmt.Sprintf("community pool got %s, rule says %s", toPool, ep)}
+						}
+						mark("infra:distribution-checked-against-rule")
+					}
+				}
+			}
+			if outOfKd.Sign() == 0 && dUsers.Sign() == 0 {
+				mark("infra:nothing-distributed")
+			} else {
+				mark("infra:distributed")
+			}
+			// partner payments: the configured rate x ONE elapsed time, within the block interval;
+			// read off the recipients that are named exactly once in the two lists
+			var te *big.Int
+			for _, p := range c.Partners {
+				if p.To[0] != 'u' || c.names(p.To) != 1 {
+					continue
+				}
+				i := int(p.To[1] - '0')
+				d := new(big.Int).Sub(after[iUser0+i], before[iUser0+i])
+				rate := bi(p.V)
+				if rate.Sign() == 0 {
+					if d.Sign() != 0 {
+						return &failure{"partner-payment-is-rate-times-elapsed", "zero-rate-partner-paid", d.String()}
+					}
+					continue
+				}
+				q, m := new(big.Int).QuoRem(d, rate, new(big.Int))
+				if m.Sign() != 0 {
+					return &failure{"partner-payment-is-rate-times-elapsed", "partner-payment-not-a-multiple-of-rate", fmt.Sprintf("%s got %s at rate %s", p.To, d, rate)}
+				}
+				if te == nil {
+					te = q
+				} else if te.Cmp(q) != 0 {
+					return &failure{"partner-payment-is-rate-times-elapsed", "partners-paid-for-different-times", fmt.Sprintf("%s vs %s seconds", te, q)}
+				}
+			}
+			if te != nil {
+				maxTe := unixOf(t) - unixOf(prev)
+				if te.Sign() < 0 || te.Cmp(big.NewInt(maxTe)) > 0 {
+					return &failure{"partner-elapsed-within-block-interval", "partner-paid-for-more-than-block-interval", fmt.Sprintf("%s s, block interval %d s", te, maxTe)}
+				}
+				if te.Sign() > 0 { // something was distributed: the elapsed time is visible
+					if f := judgeElapsed(te, kdInfra, prev, t, "block", mark); f != nil {
+						return f
 					}
 				}
 			}
@@ -682,6 +1050,20 @@ func monitorKd(w *world, o op, r stepRes, supplyBefore *big.Int, mark func(strin
 		return nil
 	}
 	un := kdSplits(o.Ps, o.Prev, o.T, mark)
+	if o.Kind == "kdinfra" {
+		if r.coins.Cmp(r.outs[0]) != 0 {
+			return &failure{"coins-handed-to-distribution-are-the-coins-minted", "infra-coins-differ-from-minted", fmt.Sprintf("returned %s, supply moved by %s", r.coins, r.outs[0])}
+		}
+		if nonDeflationary(o.Ps) { // End >= Start for every period
+			te, maxTe := r.outs[1], big.NewInt(unixOf(o.T)-unixOf(o.Prev))
+			if te.Sign() < 0 || te.Cmp(maxTe) > 0 {
+				return &failure{"partner-elapsed-within-block-interval", "partner-paid-for-more-than-block-interval", fmt.Sprintf("direct: elapsed %s s, block interval %s s (prev=%d now=%d periods %s)", te, maxTe, o.Prev, o.T, MustJSON(o.Ps))}
+			}
+			if f := judgeElapsed(te, o.Ps, o.Prev, o.T, "direct", mark); f != nil {
+				return f
+			}
+		}
+	}
 	allowed, ok := kdAllowed(o.Ps, o.Prev, o.T, supplyBefore)
 	if !ok {
 		return nil
@@ -826,7 +1208,89 @@ func genCfg(r *Rng, kind int) cfg {
 	safe := r.Chance(9, 10)
 	c.Periods = genPeriods(r, base, r.Intn(4), safe)
 	c.Infra = genPeriods(r, base+r.Int63n(2*day), r.Intn(3), safe)
+	genRewards(r, &c)
 	return c
+}
+
+func genTo(r *Rng) string {
+	switch r.Pick(76, 9, 9, 6) {
+	case 0:
+		return fmt.Sprintf("u%d", r.Intn(nUsers))
+	case 1:
+		return "kd"
+	case 2:
+		return "cp"
+	default:
+		return "blk"
+	}
+}
+
+// genRewards draws the partner and core reward lists.  perSec estimates what an
+// infrastructure period mints per second, so that most rate lists are covered by
+// the minted coins and some are not (the code then fails the whole block).
+func genRewards(r *Rng, c *cfg) {
+	if len(c.Infra) == 0 && r.Chance(1, 2) || r.Chance(1, 8) {
+		return
+	}
+	if r.Chance(4, 5) { // an infrastructure schedule that is running from the first block on
+		c.Infra = genPeriods(r, t0ns-r.Int63n(day), 1+r.Intn(2), true)
+	}
+	supply := new(big.Int).Add(bi(c.Pool), Pow10(15))
+	perSec := new(big.Int).Quo(new(big.Int).Mul(supply, big.NewInt(3)), Pow10(9))
+	risky := r.Chance(1, 10)
+	for i, n := 0, r.Intn(4); i < n; i++ {
+		var v *big.Int
+		switch r.Pick(10, 25, 45, 15, 5) {
+		case 0:
+			v = big.NewInt(0)
+		case 1:
+			v = big.NewInt(1 + r.Int63n(1000))
+		case 2: // a fraction of what is minted per second
+			v = new(big.Int).Quo(new(big.Int).Mul(perSec, big.NewInt(int64(1+r.Intn(25)))), big.NewInt(100))
+		case 3:
+			v = new(big.Int).Quo(perSec, big.NewInt(int64(2+r.Intn(5))))
+			if risky { // around or above the per-second mint: not covered
+				v = new(big.Int).Quo(new(big.Int).Mul(perSec, big.NewInt(int64(80+r.Intn(60)))), big.NewInt(100))
+			}
+		default:
+			v = big.NewInt(1)
+			if risky {
+				v = big.NewInt(-1 - r.Int63n(5))
+			}
+		}
+		to := genTo(r)
+		if to == "blk" && !risky {
+			to = "u0"
+		}
+		c.Partners = append(c.Partners, rew{to, v.String()})
+	}
+	for i, n := 0, r.Intn(4); i < n; i++ {
+		var v *big.Int
+		switch r.Pick(10, 20, 15, 35, 10, 5, 5) {
+		case 0:
+			v = big.NewInt(0)
+		case 1:
+			v = new(big.Int).Quo(prec, big.NewInt(2))
+		case 2:
+			v = new(big.Int).Set(prec)
+		case 3:
+			v = big.NewInt(r.Int63n(1_000_000_000_000_000_000))
+		case 4: // thirds, tenths: shares that round
+			v = new(big.Int).Quo(prec, big.NewInt(int64(3+r.Intn(8))))
+		case 5:
+			v = big.NewInt(1 + r.Int63n(3)) // 10^-18
+		default:
+			v = new(big.Int).Set(prec)
+			if risky { // just above one, or just below zero
+				v = []*big.Int{new(big.Int).Add(prec, big.NewInt(1+r.Int63n(1000))), big.NewInt(-1 - r.Int63n(3)), new(big.Int).Mul(prec, big.NewInt(2))}[r.Intn(3)]
+			}
+		}
+		to := genTo(r)
+		if to == "blk" && !risky {
+			to = "u1"
+		}
+		c.Cores = append(c.Cores, rew{to, v.String()})
+	}
 }
 
 // boundary instants after now that the code compares block times with
@@ -980,6 +1444,39 @@ func directed(idx int) (cfg, []op, bool) {
 		c.Infra = []per{{t0ns - day, t0ns + 50*ns + 5, "1000000003022265980"}, {t0ns + 50*ns + 5, t0ns + 300*day, prec.String()}}
 		return c, []op{{Kind: "block", T: t0ns + 300_000_000}, {Kind: "block", T: t0ns + 900_000_000}, {Kind: "block", T: t0ns + 50*ns + 2},
 			{Kind: "block", T: t0ns + 50*ns + 7}, {Kind: "block", T: t0ns + 60*ns}, {Kind: "kdinfra", T: t0ns + 60*ns + 10, Prev: t0ns + 60*ns, Ps: c.Infra}}, true
+	case 5: // distribution: partners (a user, the community pool), cores (a user at 50%, kavadist itself at 100% of the rest)
+		c := base
+		c.Infra = []per{{t0ns - day, t0ns + 300*day, "1000000003022265980"}}
+		c.Partners = []rew{{"u0", "100"}, {"cp", "50"}}
+		c.Cores = []rew{{"u1", "500000000000000000"}, {"kd", prec.String()}}
+		return c, []op{{Kind: "block", T: t0ns + 6*ns}, {Kind: "block", T: t0ns + 6*ns + 5}, {Kind: "block", T: t0ns + 13*ns}}, true
+	case 6: // (regression, fix f4ddd6441) a period ends inside the block interval, the next one lies in the future: partners are paid for the 5 s minted for, not for the 863990 s after the period's end
+		c := base
+		c.Infra = []per{{t0ns, t0ns + 10*ns, "1000000003022265980"}, {t0ns + 100*day, t0ns + 200*day, "1000000003022265980"}}
+		c.Partners = []rew{{"u0", "1"}}
+		return c, []op{{Kind: "block", T: t0ns + 5*ns}, {Kind: "block", T: t0ns + 10*day}}, true
+	case 7: // (regression) the same with a partner at 0.05 KAVA/s: before the fix 863990 s were owed out of 5 s of minting and the begin blocker panicked on every block from then on
+		c := base
+		c.Infra = []per{{t0ns, t0ns + 10*ns, "1000000003022265980"}, {t0ns + 100*day, t0ns + 200*day, "1000000003022265980"}}
+		c.Partners = []rew{{"u0", "50000"}}
+		return c, []op{{Kind: "block", T: t0ns + 5*ns}, {Kind: "block", T: t0ns + 10*day}, {Kind: "block", T: t0ns + 11*day}}, true
+	case 8: // (regression) contiguous periods, a block across the seam: partners are paid for both stretches (7 s), not for the last one only
+		c := base
+		c.Infra = []per{{t0ns, t0ns + 10*ns, "1000000003022265980"}, {t0ns + 10*ns, t0ns + 100*day, "1000000003022265980"}}
+		c.Partners = []rew{{"u2", "7"}}
+		c.Cores = []rew{{"u3", "333333333333333333"}}
+		return c, []op{{Kind: "block", T: t0ns + 5*ns}, {Kind: "block", T: t0ns + 12*ns}, {Kind: "kdinfra", T: t0ns + 12*ns, Prev: t0ns + 5*ns, Ps: c.Infra}}, true
+	case 9: // (reported only) a core reward addressed to the fee collector: x/bank refuses, the begin blocker panics
+		c := base
+		c.Infra = []per{{t0ns - day, t0ns + 300*day, "1000000003022265980"}}
+		c.Partners = []rew{{"u0", "100"}}
+		c.Cores = []rew{{"blk", "500000000000000000"}}
+		return c, []op{{Kind: "block", T: t0ns + 6*ns}, {Kind: "block", T: t0ns + 6*ns + 5}}, true
+	case 10: // (reported only) a mis-set rate: 5 KAVA/s owed, about 3.3 KAVA/s minted: the begin blocker panics instead of paying what it can
+		c := base
+		c.Infra = []per{{t0ns - day, t0ns + 300*day, "1000000003022265980"}}
+		c.Partners = []rew{{"u0", "1000000"}, {"u1", "4000000"}}
+		return c, []op{{Kind: "block", T: t0ns + 6*ns}, {Kind: "block", T: t0ns + 12*ns}}, true
 	}
 	return cfg{}, nil, false
 }
@@ -990,6 +1487,26 @@ func coqPer(ps []per) string {
 	it := make([]string, len(ps))
 	for i, p := range ps {
 		it[i] = fmt.Sprintf("mkPeriod %s %s %s", Zi(p.Start), Zi(p.End), Z(bi(p.Infl)))
+	}
+	return List(it)
+}
+
+func coqTo(to string) string {
+	switch to {
+	case "kd":
+		return "RKavadist"
+	case "cp":
+		return "RCommunity"
+	case "blk":
+		return "RBlocked"
+	}
+	return fmt.Sprintf("(RUser %s)", Nat(int(to[1]-'0')))
+}
+
+func coqRewards(rs []rew, ctor string) string {
+	it := make([]string, len(rs))
+	for i, p := range rs {
+		it[i] = fmt.Sprintf("%s %s %s", ctor, coqTo(p.To), Z(bi(p.V)))
 	}
 	return List(it)
 }
@@ -1100,7 +1617,7 @@ func runHist(seed uint64, idx, n int, c cfg, ops []op, direct bool, cnt *Counter
 		}
 		prev = after
 	}
-	out.coq = fmt.Sprintf("mkHist (mk_state %s %s %s)\n  %s", coqSnap(init), coqPer(kdPs), coqPer(kdInfra), List(steps))
+	out.coq = fmt.Sprintf("mkHist (mk_state %s %s %s %s %s)\n  %s", coqSnap(init), coqPer(kdPs), coqPer(kdInfra), coqRewards(c.Partners, "mkPartner"), coqRewards(c.Cores, "mkCore"), List(steps))
 	return out
 }
 
@@ -1109,6 +1626,8 @@ var allSplits = []string{
 	"switch:fired", "switch:block-exactly-at-upgrade-time", "switch:block-1ns-before-upgrade-time", "switch:armed-not-due", "switch:already-fired", "switch:never-armed",
 	"kd:inactive", "kd:prev-not-found", "kd:case1-expired", "kd:case2-ended-started-before-prev", "kd:case2-ended-started-after-prev", "kd:case2-end-equals-now",
 	"kd:case3-ongoing", "kd:case3-start-equals-prev", "kd:case4-not-started", "kd:case4-start-equals-now", "kd:no-case-started-inside-block", "kd:period-mints-zero-coins",
+	"infra:distributed", "infra:distribution-checked-against-rule", "infra:nothing-distributed", "infra:to-community-pool", "infra:elapsed-equals-time-minted-for",
+	"infra:period-started-inside-block-interval-not-minted", "infra:panic-shortfall", "infra:panic-blocked-recipient",
 	"calc:capped", "calc:not-capped", "calc:cap-boundary", "calc:quoint-drops-dust", "kddirect:panicked", "block:panicked", "adj:refused",
 }
 
@@ -1151,6 +1670,8 @@ func shrinkFailure(seed uint64, idx int, c cfg, ro runOut, fail *Failure, direct
 			c2 = cc
 		}
 	}
+	try(func(x *cfg) { x.Partners, x.Cores = nil, nil })
+	try(func(x *cfg) { x.Cores = nil })
 	try(func(x *cfg) { x.Infra = nil })
 	try(func(x *cfg) { x.Periods = nil })
 	for len(c2.Periods) > 1 {
@@ -1250,7 +1771,7 @@ func runC19(o Opts) (*Result, error) {
 		nontrivial := false
 		for k := range ot.ro.splits {
 			switch k {
-			case "pay:paid", "pay:capped-by-pool", "switch:fired", "kd:case2-ended-started-before-prev", "kd:case2-ended-started-after-prev", "kd:case3-ongoing":
+			case "pay:paid", "pay:capped-by-pool", "switch:fired", "kd:case2-ended-started-before-prev", "kd:case2-ended-started-after-prev", "kd:case3-ongoing", "infra:distributed":
 				nontrivial = true
 			}
 		}
